@@ -184,7 +184,15 @@ fn build(ledger: &Arc<Ledger>) -> (Unimock, u32) {
     (u, lent_id)
 }
 
+/// No operation of the alphabet may panic (every call is answered, lending never fails).
 fn run_sequence(steps: &[Step]) -> Result<String, String> {
+    match catch(|| run_sequence_inner(steps)) {
+        Ok(r) => r,
+        Err(msg) => Err(format!("a lending operation panicked: {msg}")),
+    }
+}
+
+fn run_sequence_inner(steps: &[Step]) -> Result<String, String> {
     let ledger = Arc::new(Ledger::default());
     let (original, lent_id) = build(&ledger);
     let mut insts: Vec<Quiet> = vec![Quiet::new(original)];
